@@ -68,7 +68,7 @@ constexpr typename Q::Rep rawq(Q q) {   // stored value of a Quantity
 struct Stats {
     unsigned long long gen = 0, judged = 0, ops = 0, skip_x = 0, skip_mid = 0, skip_scale = 0,
                        skip_inexact = 0, skip_result = 0, band = 0, n_lt = 0, n_eq = 0, n_gt = 0,
-                       viol = 0, ubsan = 0;
+                       viol = 0, ubsan = 0, skip_sign = 0, compound = 0;
 };
 enum Slot { S_CONV, S_CONV_POLICY, S_CMP, S_CONS, S_ANTI, S_SS, S_SUB, S_SHIFT, S_UB, NSLOT };
 struct Current {
@@ -102,9 +102,11 @@ struct Reporter {
     void done(const char *type) {
         std::printf("S {\"inst\":%d,\"type\":\"%s\",\"gen\":%llu,\"judged\":%llu,\"ops\":%llu,\"skip_x\":%llu,"
                     "\"skip_mid\":%llu,\"skip_scale\":%llu,\"skip_inexact\":%llu,\"skip_result\":%llu,"
-                    "\"band\":%llu,\"lt\":%llu,\"eq\":%llu,\"gt\":%llu,\"viol\":%llu,\"ubsan\":%llu}\n",
+                    "\"band\":%llu,\"lt\":%llu,\"eq\":%llu,\"gt\":%llu,\"viol\":%llu,\"ubsan\":%llu,"
+                    "\"skip_sign\":%llu,\"compound\":%llu}\n",
                     id, type, st.gen, st.judged, st.ops, st.skip_x, st.skip_mid, st.skip_scale,
-                    st.skip_inexact, st.skip_result, st.band, st.n_lt, st.n_eq, st.n_gt, st.viol, st.ubsan);
+                    st.skip_inexact, st.skip_result, st.band, st.n_lt, st.n_eq, st.n_gt, st.viol, st.ubsan,
+                    st.skip_sign, st.compound);
         std::fflush(stdout);
     }
 };
@@ -144,6 +146,14 @@ struct ConvRun : Reporter {
         judge(p.coerce_in(u2), want, tol, "coerce_in(u)", S_CONV);
         judge(rawp(p.coerce_as(u2)), want, tol, "coerce_as(u)", S_CONV);
     }
+    // the same conversions with the target named by its point maker (unit-slot spelling)
+    template <typename W, typename T>
+    void maker_forms(BoolC<false>, P1, W, T) {}
+    template <typename W, typename T>
+    void maker_forms(BoolC<true>, P1 p, W want, T tol) {
+        judge(p.template in<R2>(au::QuantityPointMaker<typename I::U2>{}), want, tol, "in<T>(maker)", S_CONV);
+        judge(rawp(p.template as<R2>(au::QuantityPointMaker<typename I::U2>{})), want, tol, "as<T>(maker)", S_CONV);
+    }
     template <typename W, typename T>
     void policy_forms(BoolC<false>, P1, W, T) {}
     template <typename W, typename T>
@@ -151,6 +161,7 @@ struct ConvRun : Reporter {
         typename I::U2 u2{};
         judge(p.in(u2), want, tol, "in(u)", S_CONV_POLICY);
         judge(rawp(p.as(u2)), want, tol, "as(u)", S_CONV_POLICY);
+        judge(rawp(p.as(au::QuantityPointMaker<typename I::U2>{})), want, tol, "as(maker)", S_CONV_POLICY);
     }
     void judge(R2 got, i128 want, int, const char *op, Slot s) { check_int(got, want, op, s); }
     void judge(R2 got, f128 want, f128 tol, const char *op, Slot s) { check_flt(got, want, tol, op, s); }
@@ -173,6 +184,7 @@ struct ConvRun : Reporter {
         judge(rawp(p.template coerce_as<R2>(u2)), want, tol, "coerce_as<T>(u)", S_CONV);
         judge(p.template in<R2>(u2), want, tol, "in<T>(u)", S_CONV);
         judge(rawp(p.template as<R2>(u2)), want, tol, "as<T>(u)", S_CONV);
+        maker_forms(BoolC<I::MAKER>{}, p, want, tol);
         same_forms(BoolC<I::SAME>{}, p, want, tol);
         policy_forms(BoolC<I::POL>{}, p, want, tol);
         if (vf_ubsan_reports != ub0) {
@@ -335,7 +347,8 @@ struct PairRun : Reporter {
 #endif
     void sub_int(BoolC<false>, P1, P2, i128, i128) {}
     void sub_int(BoolC<true>, P1 p1, P2 p2, i128 y1, i128 y2) {
-        typedef decltype(std::declval<C>() - std::declval<C>()) PR;
+        // the rep of the returned displacement (common_type of the operand reps: NOT promoted for equal sub-int reps)
+        typedef decltype(rawq(p1 - p2)) PR;
         const i128 d1 = y1 - y2, d2 = y2 - y1;
         if (d1 >= lo<PR>() && d1 <= hi<PR>()) {
             const i128 g = (i128)rawq(p1 - p2);
@@ -373,7 +386,12 @@ struct PairRun : Reporter {
     void pair_(BoolC<false>, P1 p1, P2 p2, R1 x1, R2 x2) {
         {
             const i128 v1 = (i128)x1, v2 = (i128)x2, cl = lo<C>(), ch = hi<C>();
-            if (v1 < cl || v1 > ch || v2 < cl || v2 > ch) { ++st.skip_x; return; }
+            if (v1 < cl || v1 > ch || v2 < cl || v2 > ch) {
+                // a negative signed operand against an unsigned common rep is its own bucket (the statement has no proviso
+                // for comparisons, the library converts the operand to the unsigned common rep first)
+                if (cl == 0 && (v1 < 0 || v2 < 0) && v1 <= ch && v2 <= ch) ++st.skip_sign; else ++st.skip_x;
+                return;
+            }
             const i128 s1 = v1 * I::A1(), s2 = v2 * I::A2();
             if (s1 < cl || s1 > ch || s2 < cl || s2 > ch) { ++st.skip_mid; return; }
             const i128 y1 = s1 + I::B1(), y2 = s2 + I::B2();
@@ -469,10 +487,53 @@ struct ShiftRun : Reporter {
             v(S_UB, "ubsan", "point+-quantity", 0, sx1, sx2, "undefined behaviour reported", "none");
         }
     }
+    // p += q; p -= q with q of exactly the point's Diff type (no unit or rep conversion involved)
+    template <typename P, typename Q>
+    void compound_int(BoolC<false>, P, Q, i128, i128) {}
+    template <typename P, typename Q>
+    void compound_int(BoolC<true>, P p, Q q, i128 vp, i128 vq) {
+        const i128 plus = vp + vq, minus = vp - vq;
+        if (plus >= lo<RP>() && plus <= hi<RP>()) {
+            P r = p;
+            r += q;
+            const i128 g1 = (i128)rawp(r);
+            r -= q;
+            const i128 g2 = (i128)rawp(r);
+            st.ops += 2;
+            ++st.compound;
+            if (g1 != plus) v(S_SHIFT, "point-shift", "p+=q", 0, sx1, sx2, s128(g1), s128(plus));
+            if (g2 != vp) v(S_SHIFT, "point-shift", "p+=q;p-=q", 0, sx1, sx2, s128(g2), s128(vp));
+        }
+        if (minus >= lo<RP>() && minus <= hi<RP>()) {
+            P r = p;
+            r -= q;
+            const i128 g = (i128)rawp(r);
+            ++st.ops;
+            ++st.compound;
+            if (g != minus) v(S_SHIFT, "point-shift", "p-=q", 0, sx1, sx2, s128(g), s128(minus));
+        }
+    }
+    template <typename P, typename Q>
+    void compound_flt(BoolC<false>, P, Q, f128, f128, f128) {}
+    template <typename P, typename Q>
+    void compound_flt(BoolC<true>, P p, Q q, f128 vp, f128 vq, f128 tol) {
+        P r = p;
+        r += q;
+        const f128 g1 = (f128)rawp(r);
+        P r2 = p;
+        r2 -= q;
+        const f128 g2 = (f128)rawp(r2);
+        st.ops += 2;
+        ++st.compound;
+        if (!(fabsq_(g1 - (vp + vq)) <= tol)) v(S_SHIFT, "point-shift", "p+=q", 0, sx1, sx2, fstr(g1), fstr(vp + vq));
+        if (!(fabsq_(g2 - (vp - vq)) <= tol)) v(S_SHIFT, "point-shift", "p-=q", 0, sx1, sx2, fstr(g2), fstr(vp - vq));
+    }
+
     template <typename P, typename Q>
     void pair_(BoolC<false>, P p, Q q, RP xp, RQ xq) {
         {
-            typedef decltype(std::declval<C>() + std::declval<C>()) PR;
+            // the rep the library returns for p + q (common_type of the operand reps: NOT promoted for equal sub-int reps)
+            typedef decltype(rawp(p + q)) PR;
             const i128 vp = (i128)xp, vq = (i128)xq, cl = lo<C>(), ch = hi<C>();
             if (vp < cl || vp > ch || vq < cl || vq > ch) { ++st.skip_x; return; }
             const i128 sp = vp * I::AP(), sq = vq * I::AQ();
@@ -492,6 +553,7 @@ struct ShiftRun : Reporter {
                 ++st.ops;
                 if (g != minus) v(S_SHIFT, "point-shift", "p-q", 0, sx1, sx2, s128(g), s128(minus));
             } else ++st.skip_result;
+            compound_int(BoolC<I::COMPOUND>{}, p, q, vp, vq);
         }
     }
     template <typename P, typename Q>
@@ -508,6 +570,7 @@ struct ShiftRun : Reporter {
             if (!(fabsq_(g1 - (yp + sq)) <= tol)) v(S_SHIFT, "point-shift", "p+q", 0, sx1, sx2, fstr(g1), fstr(yp + sq));
             if (!(fabsq_(g2 - (yp + sq)) <= tol)) v(S_SHIFT, "point-shift", "q+p", 0, sx1, sx2, fstr(g2), fstr(yp + sq));
             if (!(fabsq_(g3 - (yp - sq)) <= tol)) v(S_SHIFT, "point-shift", "p-q", 0, sx1, sx2, fstr(g3), fstr(yp - sq));
+            compound_flt(BoolC<I::COMPOUND>{}, p, q, (f128)xp, (f128)xq, tol);
         }
     }
 };
